@@ -157,3 +157,20 @@ Qed.
 Example reads_compose_nonvacuous :
   read_as_int {| cdata := [0xAB; 0xCD]; cpos := 3 |} 9 = Ok (0xBC, {| cdata := [0xAB; 0xCD]; cpos := 12 |}).
 Proof. vm_compute. reflexivity. Qed.
+
+(* ---- aligned whole-byte reads (C03_bytes_aligned) ---- *)
+(* whole bytes read at a byte boundary are exactly those bytes of the buffer *)
+Theorem read_bytes_aligned B a k : wf B -> 0 <= a -> 0 <= k -> a + k <= zlen B ->
+  read_as_bytes {| cdata := B; cpos := 8 * a |} (8 * k)
+  = Ok (slice a (a + k) B, {| cdata := B; cpos := 8 * a + 8 * k |}).
+Proof.
+  intros Hwf Ha Hk Hin. rewrite read_bytes_spec by (assumption || lia).
+  unfold spec_bytes. rewrite <- window_spec by (assumption || lia).
+  rewrite <- aligned_slice by (assumption || lia || (rewrite Z.mul_comm; apply Z.mod_mul; lia)).
+  replace (8 * a / 8) with a by (rewrite Z.mul_comm, Z.div_mul; lia).
+  replace ((8 * k + 7) / 8) with k by (pose proof (Z.div_mod (8 * k + 7) 8 ltac:(lia)); pose proof (Z.mod_pos_bound (8 * k + 7) 8 ltac:(lia)); lia).
+  reflexivity.
+Qed.
+Example read_bytes_aligned_example :
+  read_as_bytes {| cdata := [1; 2; 3; 4]; cpos := 8 |} 16 = Ok ([2; 3], {| cdata := [1; 2; 3; 4]; cpos := 24 |}).
+Proof. vm_compute. reflexivity. Qed.
